@@ -135,6 +135,8 @@ def c10_jobs(tier):
                     for zm in masks:
                         jobs.append({"func": "verif_C10_ops", "args": [kind, vk, op, R, C, zm],
                                      "tag": f"kind={kind} view={vk} op={op} {R}x{C} zmask={zm:b}"})
+                for zm in (0, 0b010110010 & ((1 << (R * C)) - 1)):
+                    jobs.append({"func": "verif_C10_ops", "args": [kind, vk, 19, R, C, zm], "tag": f"kind={kind} view={vk} op=19 (JSON) {R}x{C} zmask={zm:b}"})
             for vk in (8, 9):
                 jobs.append({"func": "verif_C10_ops", "args": [kind, vk, 18, R, C, 0]})
             jobs.append({"func": "verif_C10_tip", "args": [kind, R, C]})
@@ -155,7 +157,7 @@ PROPS["C10"] = {
                         "layer 2: 3x3 parents, symbolic finite non-zero elements plus one interleaved zero pattern, Slice/T compositions of depth <= 2 with all slice bounds, 18 operation groups, "
                         "dense+sparse Float64/Real64",
                "thorough": "layer 2 also 3x4 and 2x3 parents, depth-3 composition S;T;S, Float32/Real32 kinds, zero pattern on every operation"},
-    "outside": "printing/Table/Export of views (string formatting); parents larger than 3x4; JSON of views is covered under C18",
+    "outside": "printing/Table/Export of views (string formatting); parents larger than 3x4",
     "assumptions": ["header extents <= 2^20 so the Int encoding coincides with int64 arithmetic (largest product < 2^41)",
                     "map iteration order modelled as ascending key order"],
 }
@@ -905,6 +907,10 @@ def c14_jobs(tier):
             J("verif_C14_support", [fam, kind], mode="fp")
             J("verif_C14_ctor", [fam, kind], mode="fp")
         J("verif_C14_roundtrip", [fam])
+    # families offering Cdf / LogCdf on scalars in closed form: Exponential, Pareto, PowerLaw, GPareto, GEV
+    # (Normal, Gamma, ChiSquared go through erfc / GammaP, whose derivative rules are not identities the solver can see)
+    for fam in (3, 4, 8, 9, 11):
+        J("verif_C14_cdf", [fam], obl_cap_ms=60000)
     return jobs
 
 
@@ -913,14 +919,14 @@ PROPS["C14"] = {
     "patterns": ["./zzverif"],
     "mode": "real", "intmode": "int",
     "jobs": c14_jobs,
-    "reach": ["formula", "support", "ctor", "roundtrip"],
+    "reach": ["formula", "support", "ctor", "roundtrip", "cdf"],
     "replay_tol": 1e-6,
     "job_budget_ms": {"quick": 120000, "thorough": 600000},
     "selftest_vars": [],
     "bounds": {"quick": "15 scalar family instances (Normal, Laplace, Cauchy, Exponential, Pareto, Gamma, Poisson, Geometric, PowerLaw, GPareto xi>0, ChiSquared, GEV xi!=0, Binomial n=3, Binomial after SetN, Beta) with symbolic valid parameters: log-density = textbook formula on the support (real interpretation, "
-                        "log/lgamma heads by name, exp-homomorphism), exactly -Inf strictly outside the support (fp), constructors reject parameters strictly outside the valid region (fp), Clone / SetParameters(GetParameters()) / Real64-held parameters give the same log-density (real interpretation)",
+                        "log/lgamma heads by name, exp-homomorphism), exactly -Inf strictly outside the support (fp), constructors reject parameters strictly outside the valid region (fp), Clone / SetParameters(GetParameters()) / Real64-held parameters give the same log-density (real interpretation); for the five families with a closed-form Cdf the derivative that automatic differentiation of Cdf yields equals exp(LogPdf), and Cdf = exp(LogCdf)",
                "thorough": "also Real64-held parameters for the formula, support and constructor obligations"},
-    "outside": "normalisation (integration), monotonicity and limits of the CDFs, Cdf' = Pdf, vector and matrix families, wrappers (log-transform, translation, mixtures), the remaining scalar families (Binomial, NegativeBinomial, Categorical, GEV, GeneralizedGamma, Delta), behaviour on the boundary of support / parameter region",
+    "outside": "normalisation (integration), monotonicity and limits of the CDFs, Cdf' = Pdf for the families whose Cdf goes through erfc / GammaP (Normal, Gamma, ChiSquared), vector and matrix families, wrappers (log-transform, translation, mixtures), the remaining scalar families (Binomial, NegativeBinomial, Categorical, GEV, GeneralizedGamma, Delta), behaviour on the boundary of support / parameter region",
     "assumptions": ["floats read as reals for the formula obligations; log, lgamma, log1p uninterpreted by name"],
 }
 
